@@ -173,6 +173,20 @@ Section WithTables.
     end.
 End WithTables.
 
+(* ---- key-parser cases: (id, origin, xpub number, xpub depth, path tokens, the implementation's
+        parsed key or its error kind) ---- *)
+Definition pcase := (N * origin * N * N * list tok * pres dkey)%type.
+Definition pcheck_code (c : pcase) : N :=
+  match c with
+  | (_, o, x, depth, toks, impl) =>
+      match parse_xpub_key o x depth toks, impl with
+      | POk k, POk k' => (if dkey_eqb k k' then 0 else 1)
+                         + (if list_eqb tok_eqb (print_key_path k) toks then 0 else 2)
+      | PErr e, PErr e' => if perr_eqb e e' then 0 else 4
+      | _, _ => 16
+      end
+  end.
+
 Definition case_id {A B} (c : N * A * B) : N := fst (fst c).
 Definition failing {C} (code : C -> N) (id : C -> N) (l : list C) : list (N * N) :=
   flat_map (fun c => let k := code c in if N.eqb k 0 then [] else [(id c, k)]) l.
